@@ -188,6 +188,38 @@ func genC03(g *Gen) error {
 		g.P("def %s : String := %s", f.lean, leanStr(c03NoLog(g, fd.Body)))
 	}
 
+	// ---- the writers of the metadata the read path prunes with (model: OG.C03.Meta)
+	g.P("")
+	for _, w := range []struct{ rel, fn, lean string }{
+		{dir + "stream_compact.go", "StreamIterators.writeMetaToDisk", "stream"},
+		{dir + "msbuilder.go", "MsBuilder.writeToDisk", "builder"},
+		{dir + "msbuilder.go", "MsBuilder.WriteData", "builderTrailer"},
+		{dir + "stream_downsample.go", "StreamWriteFile.WriteMeta", "merge"},
+	} {
+		fd, err := g.Func(w.rel, w.fn)
+		if err != nil {
+			return err
+		}
+		ups := c03RangeUpdates(g, fd.Body)
+		g.PairList("metaUpd_"+w.lean, ups)
+		if w.lean != "builderTrailer" {
+			g.P("/-- how %s widens the time range of the chunk-meta block it is filling. -/", w.fn)
+			g.P("def blockUpd_%s : String := %s", w.lean, leanStr(c03BlockUpd(ups)))
+		}
+	}
+	for _, f := range []struct{ rel, fn, lean string }{
+		{dir + "tssp_file.go", "tsspFileReader.MetaIndex", "src_MetaIndex"},
+		{dir + "reader.go", "searchMetaIndexItem", "src_searchMetaIndexItem"},
+		{dir + "msbuilder.go", "needSwitchChunkMeta", "src_needSwitchChunkMeta"},
+		{dir + "tssp_file.go", "tsspFileReader.Contains", "src_readerContains"},
+	} {
+		fd, err := g.Func(f.rel, f.fn)
+		if err != nil {
+			return err
+		}
+		g.P("def %s : String := %s", f.lean, leanStr(c03NoLog(g, fd.Body)))
+	}
+
 	// ---- column-store compaction: who publishes the new files, and when (model: OG.C03.ColStore)
 	g.P("")
 	renames := []string{"RenameTmpFiles", "RenameTmpFilesWithPKIndex"}
@@ -514,4 +546,80 @@ func c03NoLog(g *Gen, body *ast.BlockStmt) string {
 		return s
 	}
 	return g.Src(strip(body))
+}
+
+// c03RangeUpdates lists, in source order, every assignment to a `….minTime` / `….maxTime` field
+// of the meta-index entry being filled (`mIndex`) or of the trailer, with the condition of the
+// innermost enclosing `if` ("" = unconditional): (condition, assignment).
+func c03RangeUpdates(g *Gen, body *ast.BlockStmt) [][2]string {
+	var out [][2]string
+	var walk func(n ast.Node, cond string)
+	walk = func(n ast.Node, cond string) {
+		switch s := n.(type) {
+		case *ast.BlockStmt:
+			for _, st := range s.List {
+				walk(st, cond)
+			}
+		case *ast.IfStmt:
+			walk(s.Body, g.Src(s.Cond))
+			if s.Else != nil {
+				walk(s.Else, "!("+g.Src(s.Cond)+")")
+			}
+		case *ast.ForStmt:
+			walk(s.Body, cond)
+		case *ast.RangeStmt:
+			walk(s.Body, cond)
+		case *ast.AssignStmt:
+			for _, l := range s.Lhs {
+				lhs := g.Src(l)
+				if (strings.HasSuffix(lhs, ".minTime") || strings.HasSuffix(lhs, ".maxTime")) &&
+					(strings.Contains(lhs, "mIndex") || strings.Contains(lhs, "trailer")) {
+					out = append(out, [2]string{cond, g.Src(s)})
+				}
+			}
+		}
+	}
+	walk(body, "")
+	return out
+}
+
+// c03BlockUpd classifies how the block range is widened after its initialisation: "own" (by
+// comparisons with the block's own range), "withTrailer" (inside the trailer's comparisons),
+// "other".
+func c03BlockUpd(ups [][2]string) string {
+	kind := func(field string) string {
+		k := ""
+		for _, u := range ups {
+			lhs := strings.TrimSpace(strings.SplitN(u[1], "=", 2)[0])
+			if !strings.Contains(lhs, "mIndex") || !strings.HasSuffix(lhs, field) {
+				continue
+			}
+			cond := strings.ReplaceAll(u[0], " ", "")
+			var this string
+			switch {
+			case strings.HasSuffix(cond, "mIndex.count==0"):
+				continue // initialisation by the first chunk of the block
+			case strings.Contains(cond, "mIndex."+field) && !strings.Contains(cond, "trailer"):
+				this = "own"
+			case strings.Contains(cond, "trailer."+field):
+				this = "withTrailer"
+			default:
+				this = "other"
+			}
+			if k == "" {
+				k = this
+			} else if k != this {
+				k = "other"
+			}
+		}
+		if k == "" {
+			k = "other"
+		}
+		return k
+	}
+	a, b := kind("minTime"), kind("maxTime")
+	if a == b {
+		return a
+	}
+	return "other"
 }
